@@ -9,7 +9,7 @@ from fractions import Fraction
 from decaylanguage import DecayChain, DecayMode
 
 from mc import shapes
-from mc.core import pmap, short_hash
+from mc.core import pmap, short_hash, run_tasks
 from ref import chains
 
 PRIMES = [2, 3, 5, 7, 11, 13, 17, 19]
@@ -191,8 +191,7 @@ def run(ctx):
             tasks.append(("deep", sl[i:i + 200], "fraction", False))
     ctx.log(f"{total} chain shapes (<=4 decaying) x all stable subsets x mapping orders; {nd} deeper shapes ({'all' if ctx.thorough else 'slice + spines'})")
     ctx.rng.shuffle(tasks)
-    for r in pmap(work, tasks, ctx.workers):
-        ctx.absorb(r)
+    run_tasks(ctx, work, tasks)
     ctx.count(states=total + nd, transitions=ctx.traces)
     ctx.part("flatten", small_shapes=total, deep_shapes=nd, deep_complete=ctx.thorough,
              mapping_orders="all permutations for <=3 decaying particles (<=4 in thorough), identity/reverse/rotations beyond",
